@@ -529,7 +529,7 @@ def transform(ex, src):
 ASSUMPTION_RE = re.compile(r"external_body|assume_specification|\bassume\s*\(|\badmit\s*\(|external_fn_specification|external_type_specification|#\[verifier::external\]")
 
 
-def generate(unit_path, repo=REPO, canary=None):
+def generate(unit_path, repo=REPO, canary=None, auto_consts=()):
     text = open(unit_path).read()
     meta, segs = _parse_unit(text, os.path.dirname(os.path.abspath(unit_path)))
     if meta["assumed_items"] is not None:
@@ -565,6 +565,21 @@ def generate(unit_path, repo=REPO, canary=None):
             linemap.append((cur_line, cur_line + t.count("\n"), ex.anchor))
         out.append(t)
         cur_line += t.count("\n")
+    # constants of the unit's own source files that the extracted text refers to but the unit does not
+    # provide (a change introduced a named constant): extracted verbatim, on demand (see run_unit)
+    for cname in auto_consts:
+        for p, src in sources.items():
+            try:
+                it = src.find("const " + cname)
+            except LostAnchor:
+                continue
+            t = "// ---- auto-extracted constant from %s (line %d)\n%s\n" % (os.path.relpath(p, repo), src.line_of(it.start), re.sub(r"\bpub\s*\(\s*crate\s*\)", "pub", src.text(it)))
+            if not t.rstrip().endswith(";"):
+                t = t.rstrip() + ";\n"
+            out.append(t)
+            records.append({"path": os.path.relpath(p, repo), "item": "const " + cname, "lines": [src.line_of(it.start), src.line_of(it.body_close)],
+                            "sha256": sha256_text(src.text(it)), "transformations": ["auto-extracted verbatim because the extracted text refers to it"]})
+            break
     out.append(FOOTER)
     gen = "".join(out)
     return gen, meta, records, linemap
@@ -621,16 +636,19 @@ def parse_errors(stderr, linemap, gen_lines):
     return errs
 
 
-def run_unit(prop, unit_path, tier, seed=0, repo=REPO):
+def run_unit(prop, unit_path, tier, seed=0, repo=REPO, _auto_consts=()):
     name = os.path.basename(unit_path).replace(".verus.rs", "")
     u = Unit("%s/%s[verus]" % (prop, name), "verus", "proved", [], None)
     failures = []
     undecided = []
+    auto_consts = list(_auto_consts)
     try:
-        gen, meta, records, linemap = generate(unit_path, repo)
+        gen, meta, records, linemap = generate(unit_path, repo, None, tuple(auto_consts))
     except (LostAnchor, ValueError) as e:
         undecided.append("%s: %s" % (name, e))
         return u, failures, undecided
+    if auto_consts:
+        u.extra["auto_extracted_consts"] = list(auto_consts)
     u.functions = meta["fns"] or [r["item"] for r in records]
     u.sources = records
     u.assumptions = list(meta["assume"])
@@ -656,6 +674,11 @@ def run_unit(prop, unit_path, tier, seed=0, repo=REPO):
     p_rc, p_out, wall = _run_split(cmd, d, env, 3600)
     stdout, stderr = p_out
     open(os.path.join(VERIF, "logs", "%s-%s.verus.err" % (prop, name)), "w").write(stderr)
+    # the text refers to constants of its own source files that the unit does not provide (a change
+    # introduced a named constant): extract them verbatim and decide again
+    missing = sorted(set(m for m in re.findall(r"cannot find value `([A-Z][A-Z0-9_]*)` in this scope", stderr) if m not in auto_consts))
+    if missing and len(auto_consts) < 8:
+        return run_unit(prop, unit_path, tier, seed, repo, tuple(auto_consts) + tuple(missing))
     try:
         js = json.loads(stdout[stdout.index("{"):])
     except Exception:
@@ -700,7 +723,7 @@ def run_unit(prop, unit_path, tier, seed=0, repo=REPO):
     if not failures and not undecided:
         for cfn, clause in meta["canaries"]:
             try:
-                cgen, _, _, _ = generate(unit_path, repo, canary=(cfn, clause))
+                cgen, _, _, _ = generate(unit_path, repo, canary=(cfn, clause), auto_consts=tuple(auto_consts))
             except LostAnchor as e:
                 undecided.append("canary %s: %s" % (cfn, e))
                 continue
